@@ -69,6 +69,12 @@ def cases(tier, rng):
             seen.append("ipc://" + "".join(rng.choice("/tmp.x- é\n*") for _ in range(rng.randint(0, 10))))
         else:
             seen.append("".join(chr(rng.choice([rng.randrange(32, 127), rng.randrange(0x80, 0x800), rng.randrange(0x4e00, 0x4e40), 0x1f600, 10, 58, 47])) for _ in range(rng.randint(0, 14))))
+    # every port shape behind every kind of well-formed host (decimal digits that are not ASCII are not digits here)
+    PORTS = ["0", "1", "80", "65535", "65536", "065535", "0000", "00000000080", "99999", "4294967376", "", "-1", "+1", "8o", "1 ", " 1",
+             "\u0661", "\u0661\u0662", "1\u0661", "\u06611", "\uff18\uff10", "\u0968\u0969", "1\u0662\u0033", "\u00b2", "\u2460", "1e3", "0x50"]
+    for h in ("127.0.0.1", "[::1]", "::1", "[fe80::1]", "localhost", "example.com", "a", "*"):
+        for pt in PORTS:
+            seen.append("tcp://%s:%s" % (h, pt))
     # well-formed endpoints with IPv6 literals of every length a literal can have (2 .. 45 characters: the long ones are fully
     # zero-padded groups with a dotted-quad tail), bracketed and bare
     for _ in range(300 if tier == "quick" else 4000):
